@@ -290,7 +290,23 @@ class RZILTransformer(Transformer):
             return self.add_op(
                 Assignment("set_return_val", AssignmentType.ASSIGN, ret_val, src)
             )
+        if isinstance(items[0], Token) and items[0].type in [
+            "GOTO",
+            "CONTINUE",
+            "BREAK",
+        ]:
+            # Do not drop them silently. The control flow would be wrong.
+            raise NotImplementedError(f'"{items[0]}" statements are not supported.')
         return items  # Pass them upwards
+
+    def labeled_stmt(self, items):
+        raise NotImplementedError(
+            f'Labeled statements ("{items[0]}") are not supported.'
+        )
+
+    def expr(self, items):
+        # Only called for: expr "," assignment_expr
+        raise NotImplementedError("The comma operator is not supported.")
 
     def relational_expr(self, items):
         self.ext.set_token_meta_data("relational_expr")
